@@ -4394,6 +4394,9 @@ impl ExecutionTimeout {
         } else {
             100_000_000.0
         } * interval_seconds;
+        // The baseline assumes cheap instructions; keep the first interval short so that the real
+        // instruction rate is measured early (each later interval is derived from the previous one).
+        let first_interval_instruction_count = first_interval_instruction_count.min(100.0);
 
         Self {
             last_check: now,
